@@ -187,18 +187,20 @@ def harness_decode(data: Optional[bytes]) -> Optional[List[str]]:
 
 
 def ref_parse_line(line: str) -> Optional[Tuple[str, str, str, str, str]]:
-    """Reference inventory line grammar (Sphinx v2): ``name domain:role priority uri dispname``;
-    the name may contain spaces, the priority (an integer) anchors the columns, dispname is
-    the rest and is not empty.  Returns None for a line that does not conform."""
-    import re
-    m = re.match(r'(.+?)\s+(\S+)\s+(-?\d+)\s+?(\S*)\s+(.*)', line.rstrip())
-    if not m:
-        return None
-    name, typ, prio, uri, disp = m.groups()
-    if ':' not in typ:
-        # the role column must be domain:role; otherwise the anchor was found too early
-        return None
-    return name, typ, prio, uri, disp
+    """Reference inventory line grammar (Sphinx v2): ``name domain:role priority uri dispname``.
+    The name may contain spaces; the columns are anchored at the first integer token that is
+    preceded by a ``domain:role`` token; dispname is the rest and is not empty.  Returns None
+    for a line that does not conform."""
+    toks = line.rstrip().split()
+    for i in range(2, len(toks)):
+        t = toks[i]
+        if (t.lstrip('-').isdigit() and (t[0] != '-' or len(t) > 1)) and ':' in toks[i - 1]:
+            if i + 2 >= len(toks) + 0 and i + 1 >= len(toks):
+                return None
+            if len(toks) < i + 3:
+                return None
+            return ' '.join(toks[:i - 1]), toks[i - 1], t, toks[i + 1], ' '.join(toks[i + 2:])
+    return None
 
 
 def expand_uri(name: str, uri: str) -> str:
